@@ -126,12 +126,15 @@ pub fn run(data: &[u8]) {
     // amplification, finding D22 of C15): they would dominate the campaign's time
     let heavy = result_weight(&case) > 20_000;
     for id in selected() {
-        if heavy && id != "C01" && id != "C02" {
+        if heavy && id != "C01" && id != "C02" && id != "C15" {
             continue;
         }
         let o = match id.as_str() {
             "C01" => props::c01::exec_on_small_stack(&case),
             "C02" => crate::engine::guarded(&props::c02::oracle, &case),
+            "C03" => crate::engine::guarded(&props::c03::oracle, &case),
+            "C08" => crate::engine::guarded(&props::c08::oracle, &case),
+            "C15" => crate::engine::guarded(&props::c15::oracle, &case),
             "C09" => crate::engine::guarded(&props::reexport::oracle_c09, &case),
             "C10" => crate::engine::guarded(&props::reexport::oracle_c10, &case),
             "C12" => {
